@@ -34,6 +34,10 @@ class BudgetExceeded(BaseException):
     """Too many loop iterations without reaching a synchronisation point."""
 
 
+class HarnessMismatch(Exception):
+    """The simulation cannot drive this provider implementation (inconclusive)."""
+
+
 class FakeSocket(object):
     def __init__(self, sim, name='sock'):
         self.sim = sim
@@ -135,10 +139,13 @@ class FakeSelect(object):
         for s in rlist:
             if isinstance(s, FakeSocket):
                 if s.closed:
-                    raise ValueError('select on closed socket')
+                    raise OSError(errno.EBADF, 'select on closed socket')
                 if s.readable():
                     ready.append(s)
         return ready, list(wlist), []
+
+    # tolerate `from select import select` style use of the patched name
+    __call__ = select
 
 
 class FakeTime(object):
@@ -146,6 +153,10 @@ class FakeTime(object):
         self.sim = sim
 
     def time(self):
+        return self.sim.now
+
+    # tolerate `from time import time` style use of the patched name
+    def __call__(self):
         return self.sim.now
 
     def monotonic(self):
@@ -175,6 +186,14 @@ class FakeSocketModule(object):
         s = self.socket()
         s.connect(address)
         return s
+
+    # tolerate `from socket import socket` style use of the patched name
+    def __call__(self, *a, **kw):
+        return self.socket(*a, **kw)
+
+    def __getattr__(self, name):
+        import socket as real
+        return getattr(real, name)
 
 
 class ScriptedUserQueue(object):
@@ -551,6 +570,17 @@ class Sim(object):
                 self.outcome = 'raised'
                 self.error = '%s: %s' % (type(exc).__name__, exc)
                 self.error_tb = traceback.format_exc()[-1200:]
+                # An error that originates inside the simulated transport itself and is not one
+                # of the socket errors it raises on purpose means the simulation does not fit
+                # the code under observation (e.g. the library reaches the network some other
+                # way): that is a harness problem, never a verdict on the library.
+                tb = exc.__traceback__
+                while tb is not None and tb.tb_next is not None:
+                    tb = tb.tb_next
+                origin = tb.tb_frame.f_code.co_filename if tb is not None else ''
+                if origin.endswith('simnet.py') and not isinstance(exc, OSError):
+                    raise HarnessMismatch('simulated transport does not fit the provider loop: %s\n%s'
+                                          % (self.error, self.error_tb))
             self.final = self.snapshot_final()
         return self
 
